@@ -109,6 +109,13 @@ def last_seg(path):
 # --------------------------------------------------------------------------------------
 
 _PS_SCALARS = {'bool', 'u8', 'u16', 'u32', 'u64', 'usize', 'i8', 'i16', 'i32', 'i64', 'isize', 'u128', 'i128'}
+# (enum, predicate method) -> the variant index for which it is true
+_VARIANT_PREDICATES = {
+    ('core::task::poll::Poll', 'is_ready'): 0, ('core::task::poll::Poll', 'is_pending'): 1,
+    ('core::option::Option', 'is_none'): 0, ('core::option::Option', 'is_some'): 1,
+    ('core::result::Result', 'is_ok'): 0, ('core::result::Result', 'is_err'): 1,
+    ('core::ops::control_flow::ControlFlow', 'is_continue'): 0, ('core::ops::control_flow::ControlFlow', 'is_break'): 1,
+}
 _PS_ENUM = re.compile(r'^(core::result::Result|core::option::Option|core::ops::control_flow::ControlFlow|core::task::poll::Poll)$')
 
 
@@ -271,6 +278,15 @@ class Fn:
                             val = ('V', 'core::ops::control_flow::ControlFlow', 0 if src[2] == 1 else 1)
                 if val is None and len(t.get('args') or []) == 2 and call_matches(t, ['core::cmp::PartialEq::eq', 'core::cmp::PartialEq::ne']):
                     val = self._ps_enum_eq(t, k)
+                if val is None and len(t.get('args') or []) == 1 and not t['args'][0].get('p'):
+                    # `poll.is_pending()`, `opt.is_some()`, `res.is_err()` on a value of known variant
+                    v_ = k.get(t['args'][0].get('l'))
+                    if isinstance(v_, tuple) and v_[0] == '&':
+                        v_ = v_[1:]
+                    if isinstance(v_, tuple) and v_[0] == 'V':
+                        pred = _VARIANT_PREDICATES.get((norm(v_[1]), last_seg(norm(t.get('callee') or ''))))
+                        if pred is not None and norm(t.get('callee') or '').startswith(norm(v_[1]) + '::'):
+                            val = (v_[2] == pred)
                 if val is not None:
                     k[t['d']['l']] = val
                 else:
